@@ -1,5 +1,7 @@
 import FranzVerif.Model.Producer
 import FranzVerif.Proof.Producer
+import FranzVerif.Proof.ProducerFacts
+import FranzVerif.Proof.ProducerFull
 /-! C03 — producer buffering limits and Flush completion, over all accepted histories. -/
 namespace Props.C03
 open Model.Producer Proof.Producer
@@ -19,14 +21,54 @@ accepted and whose promise has not run number at most `MaxBufferedRecords`, and 
 theorem buffered_never_exceeds_limits (c : Cfg) (h : List Ev) (s : St) (hacc : run c {} h = some s) :
     (acceptedNotPromised h).length ≤ (inBuffer h).length ∧ (inBuffer h).length = s.occ ∧ s.occ ≤ c.maxRecs ∧
     (c.maxBytes > 0 → s.occBytes ≤ c.maxBytes) ∧ s.occBytes = ((inBuffer h).map (sizeOfId h)).sum := by
-  sorry
+  have hi := inv_of_run hacc
+  refine ⟨?_, hi.occ, hi.occLe, hi.bytesLe, hi.bytes⟩
+  apply length_filter_le_of_imp
+  intro id _ hnp
+  simp only [Bool.not_eq_true', List.contains_eq_mem, decide_eq_false_iff_not] at hnp ⊢
+  exact fun hrel => hnp (hi.released_promiseRan hrel)
 
 /-- (b) At the limit: TryProduce never blocks, nothing blocks under ManualFlushing, and a record is
 blocked or failed with ErrMaxBuffered only if the buffer was full at some point during its call. -/
 theorem blocking_discipline (c : Cfg) (h₁ h₂ : List Ev) (id : Id)
     (hacc : (run c {} (h₁ ++ Ev.block id :: h₂)).isSome) :
     c.manual = false ∧ kindOf id h₁ ≠ some Kind.try_ ∧ sawFullDuringCall c id h₁ = true := by
-  sorry
+  obtain ⟨s₁, h1, hchk, _⟩ := run_split hacc
+  have hi := inv_of_run h1
+  cases hfd : find s₁.recs id with
+  | none => simp [check, hfd] at hchk
+  | some r =>
+    simp [check, hfd, ite_some_eq_none] at hchk
+    obtain ⟨c1, c2, _, c4⟩ := hchk
+    refine ⟨c2, ?_, ?_⟩
+    · rw [(hi.recSome id r hfd).hkind]; simpa using c1
+    · simp [sawFullDuringCall, h1, hfd, c4]
+
+/-- (b, second half) A record's unbuffered hook / promise gets ErrMaxBuffered only if the record was never
+admitted and the buffer was full at some point during its call. -/
+theorem maxbuffered_discipline (c : Cfg) (h₁ h₂ : List Ev) (id : Id) (e : Err)
+    (hacc : (run c {} (h₁ ++ Ev.hookU id e :: h₂)).isSome) (he : e.cls = ErrClass.maxBuffered) :
+    id ∉ admittedIds h₁ ∧ sawFullDuringCall c id h₁ = true := by
+  obtain ⟨s₁, h1, hchk, _⟩ := run_split hacc
+  have hi := inv_of_run h1
+  cases hfd : find s₁.recs id with
+  | none => simp [check, hfd] at hchk
+  | some r =>
+    simp [check, hfd, ite_some_eq_none] at hchk
+    obtain ⟨ha, hsf⟩ := hchk.2.2.2 (by simp [isMaxBuf, he])
+    refine ⟨?_, by simp [sawFullDuringCall, h1, hfd, hsf]⟩
+    have := (hi.recSome id r hfd).hadm
+    rw [ha] at this
+    exact List.count_eq_zero.1 (by simpa using this)
+
+/-- (b) in history terms: what `sawFullDuringCall` (read off the monitor state in (b) above) means.  At some
+prefix `p` of the history the record had been passed to Produce, was neither admitted nor finished, and
+the buffer as a function of `p` alone — `inBuffer p` and the sizes of its records — was at its limit for a
+record of this size. -/
+theorem sawFull_means_buffer_was_full (c : Cfg) (h : List Ev) (id : Id) (hs : sawFullDuringCall c id h = true) :
+    ∃ p q, h = p ++ q ∧ called id p = true ∧ id ∉ admittedIds p ∧ promisesOf id p = [] ∧
+      full c (inBuffer p).length ((inBuffer p).map (sizeOfId p)).sum (sizeOfId h id) = true :=
+  sawFullDuringCall_sound hs
 
 /-- (c) Flush returns nil only after every record that was admitted or blocked before it began has
 been finished: promise called and accounting released (or, if it never got admitted, no longer blocked). -/
@@ -34,13 +76,85 @@ theorem flush_nil_after_promises (c : Cfg) (h₁ h₂ h₃ : List Ev) (k : Nat)
     (hacc : (run c {} (h₁ ++ Ev.flushStart k :: h₂ ++ Ev.flushEnd k true :: h₃)).isSome)
     (id : Id) (hin : id ∈ inBuffer h₁) :
     id ∈ releasedIds (h₁ ++ Ev.flushStart k :: h₂) ∧ id ∈ promiseRanIds (h₁ ++ Ev.flushStart k :: h₂) := by
-  sorry
+  -- the state `s₂` at the `flushEnd`, and the state `s₁` at the `flushStart`
+  obtain ⟨s₂, h2, hchkE, _⟩ := run_split hacc
+  obtain ⟨s₁, h1, hchkS, h12⟩ := run_split' h2
+  have hi₁ := inv_of_run h1
+  have hi₂ := inv_of_run h2
+  -- `id` is in the wait set recorded at the `flushStart`
+  have hadm₁ : id ∈ admittedIds h₁ := (List.mem_filter.1 hin).1
+  have hnrel₁ : id ∉ releasedIds h₁ := by simpa using (List.mem_filter.1 hin).2
+  obtain ⟨r₁, hfd₁, hr₁, ha₁⟩ := hi₁.rec_of_admitted hadm₁
+  have hnr₁ : r₁.released = false := by
+    cases hh : r₁.released with
+    | false => rfl
+    | true => exact absurd (hr₁.mem_released.2 hh) hnrel₁
+  have hw : id ∈ ((s₁.recs.filter (fun r => (r.admitted || r.blocked) && !r.released)).map (·.id)) := by
+    refine List.mem_map.2 ⟨r₁, List.mem_filter.2 ⟨(find_some hfd₁).1, by simp [ha₁, hnr₁]⟩, (find_some hfd₁).2⟩
+  -- the pending flush keeps that wait set until the `flushEnd`
+  obtain ⟨f, hf, hfw⟩ := flush_waitFor_run h12 k
+    { k := k, waitFor := (s₁.recs.filter (fun r => (r.admitted || r.blocked) && !r.released)).map (·.id) }
+    (by simp [Model.Producer.apply])
+  simp [check, hf, ite_some_eq_none] at hchkE
+  have hcond := hchkE.2 id (by rw [hfw]; exact hw)
+  -- so at the `flushEnd` the record is finished
+  obtain ⟨r₂, hfd₂, hr₂, ha₂⟩ := hi₂.rec_of_admitted (mem_admittedIds_append_left hadm₁)
+  simp [hfd₂, ha₂] at hcond
+  obtain ⟨_, ⟨hu, hrel⟩, hp⟩ := hcond
+  exact ⟨hr₂.mem_released.2 hrel, hr₂.promiseRan hu hp⟩
 
 /-- (d) Nothing stays blocked: at a quiescent point no Produce is blocked and every Flush has returned. -/
 theorem nothing_blocked_at_quiescence (c : Cfg) (h : List Ev) (n b : Nat) (s : St)
     (hacc : run c {} (h ++ [Ev.quiesce n b]) = some s) :
     (∀ id, Ev.block id ∈ h → Ev.unblock id ∈ h) ∧ (∀ k, Ev.flushStart k ∈ h → ∃ ok, Ev.flushEnd k ok ∈ h) ∧
     inBuffer h = [] := by
-  sorry
+  obtain ⟨s₁, h1, hchk⟩ := run_snoc hacc
+  have hi := inv_of_run h1
+  obtain ⟨hrecs, hfl, _⟩ := quiesce_check hchk
+  refine ⟨?_, ?_, ?_⟩
+  · intro id hb
+    cases hfd : find s₁.recs id with
+    | none => exact absurd hb (hi.recNone id hfd).not_block
+    | some r =>
+      rcases (hi.recSome id r hfd).hblk hb with hbl | hu
+      · have := (hrecs r (find_some hfd).1).2.2.1
+        rw [hbl] at this; cases this
+      · exact hu
+  · intro k hk
+    obtain ⟨f, hf, hfk⟩ := hi.flStart k hk
+    obtain ⟨ok, hok⟩ := hi.flDone f hf (hfl f hf)
+    exact ⟨ok, hfk ▸ hok⟩
+  · apply List.filter_eq_nil_iff.2
+    intro id hm
+    obtain ⟨r, hfd, hr, ha⟩ := hi.rec_of_admitted hm
+    have := (hrecs r (find_some hfd).1).2.2.2.2 ha
+    simpa using hr.mem_released.2 this
+
+/-- Non-vacuity: an accepted history with a Produce blocked at the limit (`block 2` while record 1
+occupies the only slot), a TryProduce failed with ErrMaxBuffered, and a Flush that returns nil after
+the promises of records 1 and 2 ran; it ends at a quiescent point. -/
+example : accepts { maxRecs := 1, maxBytes := 0, manual := false }
+    [.call 1 .produce 3, .hookB 1, .admit 1 1 3 3, .ret 1,
+     .call 2 .produce 2, .hookB 2, .block 2,
+     .call 3 .try_ 1, .hookB 3, .ret 3, .hookU 3 ⟨.maxBuffered, 7⟩, .promise 3 ⟨.maxBuffered, 7⟩,
+     .flushStart 1,
+     .hookU 1 .ok, .promise 1 .ok, .release 1 0 0,
+     .unblock 2, .admit 2 1 2 2, .ret 2, .hookU 2 .ok, .promise 2 .ok, .release 2 0 0,
+     .flushEnd 1 true, .closeStart, .closeEnd, .quiesce 0 0] = true := by decide
+
+/-- Non-vacuity of (c): the same history in the shape `h₁ ++ flushStart k :: h₂ ++ flushEnd k true :: h₃`,
+with record 1 in the buffer when the Flush begins (and record 2 blocked). -/
+example :
+    (run { maxRecs := 1, maxBytes := 0, manual := false } {}
+      ([.call 1 .produce 3, .hookB 1, .admit 1 1 3 3, .ret 1,
+        .call 2 .produce 2, .hookB 2, .block 2,
+        .call 3 .try_ 1, .hookB 3, .ret 3, .hookU 3 ⟨.maxBuffered, 7⟩, .promise 3 ⟨.maxBuffered, 7⟩]
+       ++ Ev.flushStart 1 ::
+       [.hookU 1 .ok, .promise 1 .ok, .release 1 0 0,
+        .unblock 2, .admit 2 1 2 2, .ret 2, .hookU 2 .ok, .promise 2 .ok, .release 2 0 0]
+       ++ Ev.flushEnd 1 true :: [.closeStart, .closeEnd, .quiesce 0 0])).isSome = true ∧
+    1 ∈ inBuffer [.call 1 .produce 3, .hookB 1, .admit 1 1 3 3, .ret 1,
+        .call 2 .produce 2, .hookB 2, .block 2,
+        .call 3 .try_ 1, .hookB 3, .ret 3, .hookU 3 ⟨.maxBuffered, 7⟩, .promise 3 ⟨.maxBuffered, 7⟩] := by decide
 
 end Props.C03
